@@ -5,4 +5,5 @@ patch=$1; prop=$2; tier=${3:-quick}
 git -C /repo apply "$patch" || { echo "APPLY FAILED"; exit 3; }
 cd /verif && ./check $prop --tier $tier > /tmp/try_$prop.log 2>&1; rc=$?
 git -C /repo checkout -- . 
+git -C /verif checkout -- evidence
 echo "rc=$rc"; grep -E "VIOLATION|KNOWN-FINDING|\[check\] (C|lean)" /tmp/try_$prop.log | cut -c1-260 | head -20
